@@ -86,7 +86,9 @@ def make_result(nfev=4):
     start = parameters.copy()
     start.get("rates.k1").value = 0.7
     start.get("irf.center").value = 0.3
-    scheme = Scheme(model, start, {"d1": ds}, maximum_number_function_evaluations=nfev)
+    # every scalar option differs from its default: an option that is not written comes back as the default and is noticed
+    scheme = Scheme(model, start, {"d1": ds}, maximum_number_function_evaluations=nfev, clp_link_tolerance=0.5, clp_link_method="backward",
+                    add_svd=False, ftol=1e-7, gtol=1e-9, xtol=1e-6)
     with warnings.catch_warnings():
         warnings.simplefilter("ignore")
         return optimize(scheme, verbose=False, raise_exception=True)
@@ -179,6 +181,8 @@ def dataset_diff(want, got, only=None, ignore_attrs=("source_path", "loader")) -
             out.append(f"{n}: dtype {b.dtype} instead of {a.dtype}")
         elif not float_bits_equal(a.values, b.values):
             out.append(f"{n}: values differ (max abs difference {_maxdiff(a.values, b.values)})")
+        if {k: _plain(v) for k, v in a.attrs.items()} != {k: _plain(v) for k, v in b.attrs.items()}:
+            out.append(f"{n}: variable attributes {dict(b.attrs)} instead of {dict(a.attrs)}")
     want_coords = set(want[names].coords) if names else set(want.coords)
     for c in sorted(want_coords | set(got.coords)):
         if c not in got.coords or c not in want_coords:
